@@ -172,6 +172,7 @@ def verify_selector(ex, contract, timeout_ms=30000):
             fr.exits[kind] = fr.exits.get(kind, 0) + 1
             obligs.extend(st.obligs)
             name = "%s.__call__" % cls
+            P14 = ("C14", "C20") if cls == "SelectActive" else ("C14",)
             if oc.kind == "raise":
                 if oc.exc == "KeyError":
                     # only: now is not a row of the universe, or a requested ticker is not a column / prior selection outside the universe
